@@ -28,8 +28,13 @@ def sh(cmd, cwd=None, timeout=None, env=None, input=None):
     e.update({"CARGO_NET_OFFLINE": "true", "CARGO_TARGET_DIR": HARNESS_TARGET})
     if env:
         e.update(env)
-    p = subprocess.run(cmd, cwd=cwd, shell=isinstance(cmd, str), stdout=subprocess.PIPE, stderr=subprocess.STDOUT,
-                       timeout=timeout, env=e, input=input, text=True)
+    try:
+        p = subprocess.run(cmd, cwd=cwd, shell=isinstance(cmd, str), stdout=subprocess.PIPE, stderr=subprocess.STDOUT,
+                           timeout=timeout, env=e, input=input, text=True)
+    except subprocess.TimeoutExpired as ex:
+        out = ex.stdout or ""
+        out = out.decode("utf-8", "replace") if isinstance(out, bytes) else out
+        return 124, out + "\nTIMEOUT after %s s: %s" % (timeout, cmd if isinstance(cmd, str) else " ".join(cmd))
     return p.returncode, p.stdout
 
 
